@@ -227,6 +227,11 @@ func (cl *Cluster) Process() {
 				break
 			}
 			n, ok, err := cqlspec.FrameLen(in)
+			if err != nil && sc.C.PartialWrite() {
+				// the transport cut a write short: what follows is not a frame boundary
+				sc.Dead = true
+				break
+			}
 			if err != nil {
 				cl.K.Violate("C03", "C03/unframeable", "conn %s: %v (first bytes % x)", sc.C.Name, err, in[:min(len(in), 16)])
 				sc.Dead = true
@@ -284,7 +289,11 @@ func (cl *Cluster) handle(sc *SConn, frame []byte) {
 	if err != nil {
 		// a real server answers a protocol error and usually closes; keep the
 		// connection usable so the run can continue after the verdict.
-		cl.SendError(sc, rec, cqlspec.ErrProtocol, "undecodable request: "+err.Error(), Auto)
+		msg := err.Error()
+		if len(msg) > 300 {
+			msg = msg[:300]
+		}
+		cl.SendError(sc, rec, cqlspec.ErrProtocol, "undecodable request: "+msg, Auto)
 		return
 	}
 	if sc.Version == 0 {
